@@ -578,12 +578,44 @@ def source_flags(repo):
         raise Untranslatable("eigh: unexpected return %r in the pop branch" % (s1,))
     if s2 not in (("evals", None), "evals"):
         raise Untranslatable("eigvalsh: unexpected return %r in the pop branch" % (s2,))
-    fl = {"lr_wraps": wraps, "eigh_none": s1 == ("evals", None), "eigvalsh_tuple": s2 != "evals"}
-    code = ("(* GENERATED by harness/c12_memo_tr.py from linear_operator/operators/_linear_operator.py - do not edit *)\n"
+    fl = {"lr_wraps": wraps, "eigh_none": s1 == ("evals", None), "eigvalsh_tuple": s2 != "evals",
+          "kron_rootinv_noargs": _kron_rootinv_noargs(repo)}
+    code = ("(* GENERATED by harness/c12_memo_tr.py from linear_operator/operators/_linear_operator.py and "
+            "kronecker_product_linear_operator.py - do not edit *)\n"
             "Require Import C12.Model.\n"
-            "Definition flags : srcflags := {| fl_lr_wraps := %s; fl_eigh_none := %s; fl_eigvalsh_tuple := %s |}.\n"
-            % tuple("true" if fl[k] else "false" for k in ("lr_wraps", "eigh_none", "eigvalsh_tuple")))
+            "Definition flags : srcflags := {| fl_lr_wraps := %s; fl_eigh_none := %s; fl_eigvalsh_tuple := %s; "
+            "fl_kron_rootinv_noargs := %s |}.\n"
+            % tuple("true" if fl[k] else "false" for k in ("lr_wraps", "eigh_none", "eigvalsh_tuple", "kron_rootinv_noargs")))
     return code, fl
+
+
+def _kron_rootinv_noargs(repo):
+    """KroneckerProductLinearOperator.root_inv_decomposition, small branch:
+         return super().root_inv_decomposition()                                            -> True  (pinned: arguments dropped)
+         return super().root_inv_decomposition(initial_vectors=initial_vectors,
+                                               test_vectors=test_vectors, method=method)    -> False (repaired)
+       anything else is outside what the model transcribes"""
+    p = os.path.join(repo, "linear_operator", "operators", "kronecker_product_linear_operator.py")
+    try:
+        tree = ast.parse(open(p).read())
+    except SyntaxError as ex:
+        raise Untranslatable("syntax error in kronecker_product_linear_operator.py: %s" % ex)
+    f = _method(tree, "KroneckerProductLinearOperator", "root_inv_decomposition")
+    calls = []
+    for node in ast.walk(f):
+        if (isinstance(node, ast.Call) and isinstance(node.func, ast.Attribute) and node.func.attr == "root_inv_decomposition"
+                and isinstance(node.func.value, ast.Call) and isinstance(node.func.value.func, ast.Name)
+                and node.func.value.func.id == "super"):
+            calls.append(node)
+    if len(calls) != 1:
+        raise Untranslatable("KroneckerProductLinearOperator.root_inv_decomposition: expected one super() call, found %d" % len(calls))
+    c = calls[0]
+    if not c.args and not c.keywords:
+        return True
+    kws = [(k.arg, k.value.id if isinstance(k.value, ast.Name) else None) for k in c.keywords]
+    if not c.args and kws == [("initial_vectors", "initial_vectors"), ("test_vectors", "test_vectors"), ("method", "method")]:
+        return False
+    raise Untranslatable("KroneckerProductLinearOperator.root_inv_decomposition: super() call with arguments the model does not transcribe")
 
 
 if __name__ == "__main__":
